@@ -39,6 +39,6 @@ func AlphaV2Contracts(w *World) []Action {
 func AlphaUnion(w *World) []Action {
 	return []Action{
 		V1Pay(true, 2), V1Chain(), V1SF(true), V1Form(1, 2, 100), V1Revise("pay"), V1Proof(false),
-		V2Pay(AddrV2, true, 2), V2Pay(AddrV1, false, 1), V2Chain(AddrV2), V2SF(true), V2Form(1, 2, 100), V2Revise("pay"), V2Renew("partial"), V2Proof(), V2Expire(), V2Attest(),
+		V2Pay(AddrV2, true, 2), V2Pay(AddrV1, false, 1), V2Chain(AddrV2), MixedChain(), V2SF(true), V2Form(1, 2, 100), V2Revise("pay"), V2Renew("partial"), V2Proof(), V2Expire(), V2Attest(),
 	}
 }
